@@ -5,8 +5,9 @@ from __future__ import annotations
 import copy
 import itertools
 import random
+import re
 
-from .gen import Gen, PhasedGen, POINTS
+from .gen import Gen, PhasedGen, BigGen, POINTS
 from .poolsim import Sim, run_sim
 from .shrink import shrink
 from .util import subseed
@@ -62,6 +63,7 @@ UNSTEER = {
 }
 QUICK_HRAND = 2000
 QUICK_PHASED = 3000
+QUICK_BIG = 400
 
 SWEEP_STEPS = {
     "C01": ["spawn2", "cancel_all"],
@@ -127,6 +129,8 @@ def units(prop, tier, seed):
         for tag in un:
             for i in range(QUICK_HRAND):
                 yield ("hrand", (tag, subseed(seed, prop, "hrand", tag, i)), next(order))
+        for i in range(QUICK_BIG):
+            yield ("big", subseed(seed, prop, "big", i), next(order))
         for i in range(QUICK_PHASED):
             yield ("phased", subseed(seed, prop, "phased", i), next(order))
         for i in range(QUICK_RANDOM):
@@ -139,6 +143,9 @@ def units(prop, tier, seed):
                 i += 1
             for _ in range(15):
                 yield ("phased", subseed(seed, prop, "phased", i), next(order))
+                i += 1
+            for _ in range(2):
+                yield ("big", subseed(seed, prop, "big", i), next(order))
                 i += 1
             for tag in un:
                 for _ in range(8):
@@ -182,6 +189,19 @@ def exec_unit(prop, unit, agg):
         sim = Sim(run, {prop})
         sim.execute(g.next_step)
         _account(prop, sim, agg, order, "rand")
+    elif kind == "big":
+        g = BigGen(arg, prop, True)
+        run = {"prop": prop, "seed": arg, "clean": True, "config": g.make_config(), "steps": [], "big": True, "max_handles": 60000}
+        sim = Sim(run, {prop})
+        sim.execute(g.next_step)
+        agg.stats["probe:big_tasks_created"] += sum(len(pc.tasks) for pc in sim.pools)
+        if any(len(pc.tasks) >= 100 for pc in sim.pools):
+            agg.stats["probe:big_run_with_task_ids_over_100"] += 1
+        if any(re.search(r"-group-\d\d+$", n or "") for pc in sim.pools for n in pc.live_names):
+            agg.stats["probe:big_run_with_group_index_over_9"] += 1
+        if sim.hit_cap:
+            agg.stats["probe:big_run_hit_handle_cap"] += 1
+        _account(prop, sim, agg, order, "big")
     elif kind == "phased":
         g = PhasedGen(arg, prop, True)
         run = {"prop": prop, "seed": arg, "clean": True, "config": g.make_config(), "steps": [], "phased": True}
